@@ -32,7 +32,7 @@ func slots(tier string) int {
 
 func merges(tier string) int {
 	if tier == "thorough" {
-		return 12
+		return 6 // measured: ~4 min per merge on 16 idle cores (every FS call touching the destination)
 	}
 	return 2
 }
